@@ -41,33 +41,56 @@ def testfailure_ctor_table(prog, run, rid):
 
 
 def plugin_chain_order(prog, run, rid):
-    """ORDER over the plugin chain walkers: the pre action runs head first (own action, then the rest),
-    the post action tail first (the rest, then own action); a disabled plugin skips only its own action;
-    NullTestPlugin ends the recursion."""
-    for meth, own, own_first in (("runAllPreTestAction", "preTestAction", True), ("runAllPostTestAction", "postTestAction", False)):
+    """ORDER over the plugin chain walkers, decided on a fold over chain models (2..4 plugins x every enabled pattern,
+    ended by a NullTestPlugin object, virtual calls resolved by the dynamic class the model states): the pre action runs
+    head first, the post action tail first, each enabled plugin exactly once with the walker's own (test, result), a
+    disabled plugin skips only its own action."""
+    import itertools
+    from cpv.ceval import Evaluator, Unknown
+    ADDR = [5000, 6000, 7000]
+    NULLP = 9000
+    for meth, own, head_first in (("runAllPreTestAction", "preTestAction", True), ("runAllPostTestAction", "postTestAction", False)):
         f = prog.fn("TestPlugin::" + meth)
         run.analysed(f)
-        for p in enumerate_paths(f):
-            calls = path_calls(prog, f, p)
-            names = [(prog.callee_name(f, c) or "").split("::")[-1] for c in calls]
-            rec = [i for i, c in enumerate(calls) if names[i] == meth and render(f, f.node(c.get("obj"))) == "next_"]
-            mine = [i for i, n in enumerate(names) if n == own]
-            en = p.val().get("enabled_")
-            why = ""
-            if len(rec) != 1:
-                why = "the rest of the chain is visited %d times on this path (a disabled plugin must skip only its own action)" % len(rec)
-            elif en is None or len(mine) != (1 if en else 0):
-                why = "own %s called %d times with enabled_=%s" % (own, len(mine), en)
-            elif mine and ((mine[0] < rec[0]) != own_first):
-                why = "own action and recursion are in the wrong order for %s" % meth
-            args_ok = all([render(f, a) for a in f.args(calls[i])] == [q["name"] for q in f.params] for i in rec + mine)
-            if not why and not args_ok:
-                why = "test/result are not forwarded unchanged"
-            run.ob(rid, "%s [%s]" % (meth, p.describe(f)), f.site, not why, witness=names, what=why)
         nf = prog.fn("NullTestPlugin::" + meth, required=False)
-        ok = nf is not None and not nf.calls()
-        run.ob(rid, "NullTestPlugin::%s ends the chain" % meth, nf.site if nf else "src/CppUTest/TestPlugin.cpp:NullTestPlugin::" + meth, ok,
-               what="" if ok else "the chain terminator does not override %s with an empty body" % meth)
+        if nf is not None:
+            run.analysed(nf)
+        for n in (1, 2, 3):
+            bad = None
+            for pattern in itertools.product((1, 0), repeat=n):
+                env = {"this": ADDR[0], f.params[0]["name"]: 111, f.params[1]["name"]: 222}
+                for i in range(n):
+                    env["@%d.next_" % ADDR[i]] = ADDR[i + 1] if i + 1 < n else NULLP
+                    env["@%d.enabled_" % ADDR[i]] = pattern[i]
+                env.update({"@%d.next_" % NULLP: 0, "@%d.enabled_" % NULLP: 1, "next_": env["@%d.next_" % ADDR[0]], "enabled_": pattern[0]})
+                seen = []
+
+                def action(ev_, *a_):
+                    # (the own action is a call on `this`: the receiver is the object the enclosing walker runs on)
+                    seen.append((ev_.env.get("this"),) + tuple(a_[-2:]))
+                    return 0
+                action.wants_ev = True
+                ev = Evaluator(prog, f, env=env, calls={"TestPlugin::" + own: action, "NullTestPlugin::" + own: action})
+                ev.heap_mode = True
+                ev.pass_object = True
+                ev.dyn_type = {a: "TestPlugin" for a in ADDR}
+                ev.dyn_type[NULLP] = "NullTestPlugin"
+                ev.inline = {g.qn for g in prog.functions.values() if g.qn.startswith(("TestPlugin::", "NullTestPlugin::"))} - set(ev.calls)
+                try:
+                    ev.run_blocks(f.entry, max_steps=3000)
+                except Unknown as u:
+                    if "null dereference" in str(u) or "unbounded recursion" in str(u) or getattr(ev, "null_derefs", None):
+                        bad = bad or "chain of %d plugins, enabled %s: the walk does not stop at the NullTestPlugin (%s)" % (n, list(pattern), u)
+                        continue
+                    raise AnalysisBroken_("%s.%s: %s cannot be folded over the chain model: %s" % (run.pid, rid, f.qn, u))
+                order = [ADDR[i] for i in range(n) if pattern[i]]
+                if not head_first:
+                    order = order[::-1]
+                got = list(seen)
+                if got != [(o, 111, 222) for o in order] and bad is None:
+                    bad = "chain of %d plugins, enabled %s: %s runs on %s; expected %s, each with the walker's own (test, result)" % (n, list(pattern), own, [g_[0] for g_ in got], order)
+            run.ob(rid, "%s folded over chains of %d plugin(s) + terminator x %d enabled patterns: %s, each enabled plugin once, disabled ones skip only themselves" % (meth, n, 2 ** n, "head first" if head_first else "tail first"), f.site, bad is None,
+                   witness=bad or "%d patterns" % 2 ** n, what=bad or "")
 
 
 def char_classifiers(prog, run, rid, which=None):
